@@ -14,6 +14,10 @@ CHECKS = {
             "Every concrete Intersects/Contains/Within impl (100 ordered type pairs each, plus Coord operands, Intersects also for i64) is called on every ordered pair of the lattice families and compared with the documented mask applied to the exact reference matrix; coordinate_position of every shape (f64 and i64) at every half-step lattice point is compared with exact point location.",
             "Trusted: exact kernel; the masks are evaluated on the reference matrix, so C02 does not inherit relate's answers. One known finding (MultiLineString::coordinate_position at an even shared endpoint) is listed in known_findings.json.",
             "DESIGN.md §4 C02"),
+    "C07": ("E1-grid", "bounded exhaustive enumeration of input pairs vs exact rational minimum distance",
+            "Every concrete Euclidean Distance impl (100 ordered type pairs) on every ordered pair of the lattice families, a donut family with the partner inside or touching the hole, and all representation variants; compared with the exact rational squared distance (exactly 0.0 iff the exact DE-9IM intersects), symmetry bitwise, enum == concrete.",
+            "Trusted: exact kernel. Tolerance 1e-12 relative on distance^2 (largest deviation measured is reported in the evidence).",
+            "DESIGN.md §4 C07"),
 }
 
 NOT_YET = "check not built yet in this round (planned: bounded exhaustive exploration, see DESIGN.md §4)"
